@@ -19,6 +19,7 @@ type Result struct {
 	Seconds float64
 	Output  string            // raw output of the deciding solver (or of the last one)
 	Model   map[string]string // get-value pairs for sat
+	Values  []string          // get-value values in request order
 	All     map[string]string // status per solver (thorough mode)
 }
 
@@ -118,6 +119,7 @@ func Solve(script string, dir, name string, timeoutS int, all bool) Result {
 	if decided && res.Status != "error" {
 		if res.Status == "sat" {
 			res.Model = parseValues(res.Output)
+			res.Values = parseValueList(res.Output)
 		}
 	} else if !decided && res.Status == "error" {
 		// if some solver merely timed out / unknown, report that instead of another solver's parse error
@@ -194,4 +196,67 @@ func parseValues(out string) map[string]string {
 		}
 	}
 	return m
+}
+
+// parseValueList returns the value part of each (term value) pair of a get-value answer, in order.
+func parseValueList(out string) []string {
+	i := strings.Index(out, "((")
+	if i < 0 {
+		return nil
+	}
+	s := out[i+1:]
+	var vals []string
+	depth := 0
+	start := -1
+	for j := 0; j < len(s); j++ {
+		switch s[j] {
+		case '(':
+			if depth == 0 {
+				start = j
+			}
+			depth++
+		case ')':
+			depth--
+			if depth == 0 && start >= 0 {
+				pair := strings.TrimSpace(s[start+1 : j])
+				vals = append(vals, lastSexpr(pair))
+				start = -1
+			}
+			if depth < 0 {
+				return vals
+			}
+		}
+	}
+	return vals
+}
+
+// lastSexpr returns the last top-level s-expression of s.
+func lastSexpr(s string) string {
+	s = strings.TrimSpace(s)
+	if s == "" {
+		return s
+	}
+	if s[len(s)-1] == ')' {
+		depth := 0
+		for k := len(s) - 1; k >= 0; k-- {
+			switch s[k] {
+			case ')':
+				depth++
+			case '(':
+				depth--
+				if depth == 0 {
+					return s[k:]
+				}
+			}
+		}
+		return s
+	}
+	if s[len(s)-1] == '|' {
+		k := strings.LastIndex(s[:len(s)-1], "|")
+		if k >= 0 {
+			return s[k:]
+		}
+	}
+	k := strings.LastIndexAny(s, " \n\t")
+	return s[k+1:]
 }
